@@ -305,6 +305,8 @@ class LiveCtx(Ctx):
             return {'pattern': None if not args else ('str' if args[0] is str else 'bytes' if args[0] is bytes else 'other')}
         if S.np is not None and base is S.np.ndarray:
             return 'ndarray'
+        if base.__name__ == 'ValueOrList' and base.__module__ == 'pane.types':
+            return {'vol': self.describe(args[0]) if args else None}
         if issubclass(base, enum.Enum):
             return {'enum': base.__name__}
         if base.__name__ in self.subs and self.subs[base.__name__][0] is base:
@@ -636,6 +638,8 @@ def prepare(scen):
         for k in todo:
             entries[k] = ctx.class_entry(k, ctx.used[k])
     env['classes'] = list(entries.values())
+    if scen.get('registered'):
+        env['registered'] = scen['registered']
     scen['env'] = env
     scen['_create_err'] = create_err
     return ctx
@@ -696,6 +700,33 @@ def map_exc(e):
         return 'AttributeError'
     return n if n in ('KeyError', 'TypeError', 'ValueError', 'OverflowError', 'AttributeError', 'ZeroDivisionError',
                       'AssertionError', 'RuntimeError') else 'other'
+
+
+def register_globals(scen, ctx):
+    """`register_converter_handler`: the scenario's process-wide handlers, registered for the duration of the scenario.  The
+    memo of make_converter does not know about them (documented: register before first use), so it is emptied around it."""
+    regs = scen.get('registered')
+    if not regs or ctx is None:
+        return
+    PC = sys.modules['pane.convert']
+    fns = [ctx.handler(h) for h in regs]
+    scen['_registered_fns'] = fns
+    make_converter.cache.clear()
+    for f in fns:
+        PC.register_converter_handler(f)
+
+
+def unregister_globals(scen):
+    fns = scen.pop('_registered_fns', None)
+    if not fns:
+        return
+    PC = sys.modules['pane.convert']
+    for f in fns:
+        try:
+            PC._GLOBAL_HANDLERS.remove(f)
+        except ValueError:
+            pass
+    make_converter.cache.clear()
 
 
 def build(ctx, scen):
